@@ -56,6 +56,7 @@ func NewNotificationQueue() *IndexNotificationQueue {
 func (q *IndexNotificationQueue) Run() {
 	gc := time.NewTicker(time.Second)
 	defer gc.Stop()
+	verifTicker(gc)
 	for {
 		select {
 		case <-q.closed:
